@@ -394,7 +394,7 @@ func (e *Enc) get(fr *Frame, v ssa.Value) Val {
 		}
 		if al, isAlloc := v.(*ssa.Alloc); isAlloc {
 			e.assert(T{BoolS, app("<", "0", x.L[0].E)})
-			if !al.Heap && e.discovery == 0 {
+			if (!al.Heap || closureOnly(al)) && e.discovery == 0 {
 				e.privateCells = append(e.privateCells, privateCell{x, al.Type().(*types.Pointer).Elem()})
 			}
 			if e.discovery == 0 {
@@ -503,6 +503,129 @@ func (e *Enc) havocAll(st *State, why string) {
 	}
 	nt := e.heapGet(st, "!top", IntS)
 	e.assert(T{BoolS, app("<=", oldTop.E, nt.E)})
+}
+
+// reachTypes computes the heap families an unknown callee can reach from values of the given
+// types: pointed-to objects (H), slice/array backing stores (E) and maps (M), transitively
+// through fields. all=true when an interface, function value, channel or unsafe pointer is
+// reachable (then anything may be reached).
+func (e *Enc) reachTypes(ts []types.Type) (reach map[string]bool, all bool) {
+	reach = map[string]bool{}
+	seen := map[string]bool{}
+	var walk func(t types.Type, depth int)
+	walk = func(t types.Type, depth int) {
+		if all || depth > 40 {
+			if depth > 40 {
+				all = true
+			}
+			return
+		}
+		k := typeKey(t)
+		if seen[k] {
+			return
+		}
+		seen[k] = true
+		if opaqueTypes[k] {
+			return
+		}
+		switch u := t.Underlying().(type) {
+		case *types.Basic:
+			if u.Kind() == types.UnsafePointer {
+				all = true
+			}
+		case *types.Pointer:
+			reach["H|"+typeKey(u.Elem())] = true
+			if at, ok := u.Elem().Underlying().(*types.Array); ok {
+				reach["E|"+typeKey(at.Elem())] = true
+			}
+			walk(u.Elem(), depth+1)
+		case *types.Slice:
+			reach["E|"+typeKey(u.Elem())] = true
+			walk(u.Elem(), depth+1)
+		case *types.Array:
+			reach["E|"+typeKey(u.Elem())] = true
+			walk(u.Elem(), depth+1)
+		case *types.Map:
+			reach["M|"+typeKey(t)] = true
+			reach["M|"+typeKey(u)] = true
+			walk(u.Key(), depth+1)
+			walk(u.Elem(), depth+1)
+		case *types.Struct:
+			for i := 0; i < u.NumFields(); i++ {
+				walk(u.Field(i).Type(), depth+1)
+			}
+		case *types.Tuple:
+			for i := 0; i < u.Len(); i++ {
+				walk(u.At(i).Type(), depth+1)
+			}
+		default: // interfaces, functions, channels, type parameters
+			all = true
+		}
+	}
+	for _, t := range ts {
+		walk(t, 0)
+	}
+	return reach, all
+}
+
+// havocReach forgets what an unknown callee with arguments of the given types may have changed:
+// only heap families reachable from those types (and package-level variables).
+func (e *Enc) havocReach(st *State, argTypes []types.Type, why string) {
+	reach, all := e.reachTypes(argTypes)
+	if all {
+		e.havocAll(st, why)
+		return
+	}
+	oldTop := e.heapGet(st, "!top", IntS)
+	// non-escaping locals keep their contents (see havocAll)
+	type saved struct {
+		c privateCell
+		v Val
+	}
+	var savedCells []saved
+	if e.quantDepth == 0 {
+		for _, c := range e.privateCells {
+			if c.ptr.P != nil && c.ptr.P.Space != "H" {
+				continue
+			}
+			if pt, ok := c.ptr.Typ.Underlying().(*types.Pointer); ok && reach["H|"+typeKey(pt.Elem())] {
+				savedCells = append(savedCells, saved{c, e.nameVal(e.loadAt(st, c.ptr, c.typ), "keep")})
+			}
+		}
+	}
+	e.partialHavoc(st, reach)
+	for _, s := range savedCells {
+		e.storeAt(st, s.c.ptr, s.v)
+	}
+	if e.writes != nil {
+		for k := range reach {
+			e.writes["~"+k] = true // family-level write mark (used by loop havoc)
+		}
+	}
+	nt := e.declare(IntS, "top_c")
+	e.assert(T{BoolS, app("<=", oldTop.E, nt.E)})
+	st.H["!top"] = nt
+}
+
+// partialHavoc starts a new epoch in which the given heap families (and package-level
+// variables) are fresh and everything else is inherited.
+func (e *Enc) partialHavoc(st *State, reach map[string]bool) {
+	ne := e.newEpoch()
+	ne.parent = st.ep
+	ne.reach = reach
+	for k := range st.H {
+		if strings.HasPrefix(k, "!") {
+			continue
+		}
+		sp, ty := heapKeyType(k)
+		if sp == "G" && !e.isConstGlobal(k) || reach[sp+"|"+ty] {
+			if e.writes != nil {
+				e.writes[k] = true
+			}
+			delete(st.H, k) // re-read from the new epoch on next touch
+		}
+	}
+	st.ep = ne
 }
 
 func (e *Enc) isConstGlobal(key string) bool {
@@ -635,7 +758,20 @@ func (e *Enc) loopHeader(fr *Frame, li *LoopInfo, guard T, st *State) (T, *State
 			ks = append(ks, k)
 		}
 		sort.Strings(ks)
+		// heap families touched by unknown callees inside the loop (partial havocs)
+		fams := map[string]bool{}
 		for _, k := range ks {
+			if strings.HasPrefix(k, "~") {
+				fams[k[1:]] = true
+			}
+		}
+		if len(fams) > 0 {
+			e.partialHavoc(st, fams)
+		}
+		for _, k := range ks {
+			if strings.HasPrefix(k, "~") {
+				continue
+			}
 			if k == "!top" {
 				old := e.heapGet(st, k, IntS)
 				st.H[k] = e.declare(IntS, "top_l")
@@ -998,6 +1134,45 @@ func (e *Enc) evalClauseOpt(fr *Frame, sc *Scope, c *Clause) (t T, ok bool) {
 		}
 	}()
 	return e.evalBool(sc, c.E), true
+}
+
+// closureOnly reports whether a heap-allocated local escapes only because function literals of
+// its own function capture it: every use is a load, a store into it, an interior address that
+// is itself only loaded/stored, or a closure binding. Such a variable cannot be reached by a
+// callee unless one of those closures is handed to it (assumption, see DESIGN).
+func closureOnly(al *ssa.Alloc) bool {
+	var ok func(v ssa.Value, depth int) bool
+	ok = func(v ssa.Value, depth int) bool {
+		if depth > 4 || v.Referrers() == nil {
+			return false
+		}
+		for _, r := range *v.Referrers() {
+			switch x := r.(type) {
+			case *ssa.DebugRef:
+			case *ssa.UnOp:
+				if x.Op != token.MUL {
+					return false
+				}
+			case *ssa.Store:
+				if x.Addr != v {
+					return false // the address itself is stored somewhere
+				}
+			case *ssa.MakeClosure:
+			case *ssa.FieldAddr:
+				if !ok(x, depth+1) {
+					return false
+				}
+			case *ssa.IndexAddr:
+				if x.X != v || !ok(x, depth+1) {
+					return false
+				}
+			default:
+				return false
+			}
+		}
+		return true
+	}
+	return ok(al, 0)
 }
 
 // isLocalName reports whether name is a source-level local variable of fn (it has a DebugRef).
